@@ -568,8 +568,12 @@ func ruleP06PrintWidth(p *Prog, r *Report) {
 		if !ok {
 			return
 		}
-		if _, isAlloc := st.Addr.(*ssa.Alloc); isAlloc && isLen(st.Val) {
-			updates = append(updates, st)
+		if _, isAlloc := st.Addr.(*ssa.Alloc); isAlloc {
+			if isLen(st.Val) {
+				updates = append(updates, st)
+			} else if cand, isMax := runningMax(st); isMax && isLen(cand) {
+				updates = append(updates, st)
+			}
 		}
 	})
 	if len(updates) != 1 {
@@ -1129,8 +1133,8 @@ func ruleP14SortKey(p *Prog, r *Report) {
 	sl := p.method("klog/service", "totalByTag", "toSortedList")
 	if r.anchorFn(rule, sl, "service.totalByTag.toSortedList") {
 		okc := false
-		for _, a := range sl.AnonFuncs {
-			for _, ret := range returnsOf(a) {
+		for _, site := range p.sortSitesIn(sl) {
+			for _, ret := range returnsOf(site.less) {
 				// (<= is as good as <: the keys are unique, one row per name/value pair of the map)
 				if bo, ok := strip(retResult(ret, 0)).(*ssa.BinOp); ok && (bo.Op == token.LSS || bo.Op == token.LEQ) {
 					_, f1 := fieldLoad(bo.X)
@@ -2112,14 +2116,16 @@ func ruleP20OnlyJson(p *Prog, r *Report) {
 		return at
 	}
 	n := 0
-	for _, g := range withAnons(run) {
-		eachInstr(g, func(in ssa.Instruction) {
+	for _, g := range plainWithAnons(run) {
+		// (a transparent helper of Json.Run is looked into instead: what it prints is a print
+		// site of Json.Run, which P20-run classifies)
+		eachVInstr(g, func(in ssa.Instruction) {
 			c, ok := in.(ssa.CallInstruction)
 			if !ok {
 				return
 			}
 			callee := staticCallee(c)
-			if callee == nil || !p.inMod(callee) || len(callee.Blocks) == 0 {
+			if callee == nil || !p.inMod(callee) || len(callee.Blocks) == 0 || isHelper(rawStaticCallee(c)) {
 				return
 			}
 			n++
